@@ -148,7 +148,7 @@ Proof. eexists. split; [vm_compute; reflexivity|split; reflexivity]. Qed.
    wins (so Overpass's lowercase per-element bounds reach the untagged Bounds struct) *)
 Example ex_case_folding :
   exists o w, osm_unmarshal
-      (JObj [("Version", JStr "0.6"); ("version", JNull); ("ELEMENTS",
+      (JObj [("version", JNull); ("Version", JStr "0.6"); ("ELEMENTS",
          JArr [JObj [("Id", JNum 9 0); ("TYPE", JStr "way"); ("id", JNum 7 0);
                      ("bounds", JObj [("minlat", JNum 1 0); ("minlon", JNum 2 0);
                                       ("maxlat", JNum 3 0); ("maxlon", JNum 4 0)])]])]) = Ok o
